@@ -15,8 +15,12 @@ from datetime import timedelta
 
 d3_time = {}
 
-milli2dt = lambda x: datetime.fromtimestamp(x / 1000.0)
-dt2milli = lambda x: x.timestamp() * 1000.0
+# Times are naive wall-clock values: milliseconds are counted from a naive
+# epoch, never through the process's local time zone (timestamp() and
+# fromtimestamp() would apply its UTC offset and DST rules)
+_EPOCH = datetime(1970, 1, 1)
+milli2dt = lambda x: _EPOCH + timedelta(milliseconds=x)
+dt2milli = lambda x: (x - _EPOCH) / timedelta(milliseconds=1)
 
 # Timezones are ignored
 getTimezoneOffset = lambda x: 0
@@ -148,7 +152,7 @@ def d3_time_week_local(date):
     i = 7
     ndate = d3_time["day"](date)
     diff = ((date.isoweekday() % 7) + i) % 7
-    ndate = datetime.fromtimestamp(ndate.timestamp() - diff * 24 * 3600)
+    ndate = ndate - timedelta(days=diff)
     return ndate
 
 
@@ -163,9 +167,7 @@ def d3_time_week_number(date):
 
 d3_time["week"] = d3_time_interval(
     lambda date: d3_time_week_local(date),
-    lambda date, offset: datetime.fromtimestamp(
-        date.timestamp() + math.floor(offset) * 7 * 24 * 3600
-    ),
+    lambda date, offset: date + timedelta(days=7 * math.floor(offset)),
     lambda date: d3_time_week_number(date),
 )
 
